@@ -23,7 +23,8 @@ CLAIM = dict(
           '(P5) the recurrence weights carry the triangular mask; the clock tendency is the constant 1 (explicit) / 0 (implicit) and the solve returns the '
           'incoming clock; the dry and shallow-water vorticity / divergence tendencies are sums of outputs of ∇², div, curl, each of which has a structurally '
           'zero (0,0) row, and the shallow-water potential tendency is −div(·) explicitly and −Φ_ref·divergence implicitly. Also decided: the flux-form tracer advection is −∇·(u q) + q·δ with the nodal wind synthesised from (ζ, δ) without clipping and δ the transform of the prognostic divergence (the consistency a uniform tracer needs). Does not decide conservation of '
-          'the moist global means or of a uniform tracer (they rest on quadrature exactness), nor "to rounding" for the clock.'),
+          'the moist global means or of a uniform tracer (they rest on quadrature exactness), nor "to rounding" for the clock.'
+          ' Later additions: C11.T uniform-tracer consistency, C11.M moist divergence form, the clock snap rounds (not truncates) the step count, C11.S shared state.'),
     note=('The implication "premises ⇒ invariant" is a paper argument (linear-combination integrators preserve a coordinate subspace that F, G, G⁻¹ and the '
           'filters preserve); the check decides the premises on the current source. Σb = 1 for the tableaux is decided under C06.'),
     technique='must-pass-through / who-may-call over inlined call trees + LIN domain on integrator steps + dependence sets (shared with C15) + value-at-l=0 domain',
